@@ -98,7 +98,7 @@ def c06_jobs(tier, seed):
     # (thorough) three rounds for the smaller sizes
     if not q:
         jobs.append(("theorems3", cfg_text(shuffle_constants(MaxN=4, MaxR=3), "Init", "Next",
-                                           SHUFFLE_THEOREMS, "EmitCase"), 4, 6000, False))
+                                           SHUFFLE_THEOREMS, "EmitCase"), 6, 6000, False))
     # 2. exhaustive test-case generation for the replayer
     jobs.append(("emit-small", cfg_text(shuffle_constants(MaxN=4 if q else 5, MaxR=2, Emit="TRUE"), "Init", "Next",
                                         SHUFFLE_THEOREMS, "EmitCase"), 4 if q else 8, 6000, True))
